@@ -599,3 +599,85 @@ func valueFields(m *core.Model, f *core.Func, e ast.Expr) map[string]ast.Expr {
 	}
 	return nil
 }
+
+// countLoop recognises a loop that runs a counter from 0 up to (excluding) a bound: `for i := range B` over an
+// integer, or `for i := 0; i < B; i++`. It returns the bound expression and the body.
+func countLoop(m *core.Model, loop ast.Node) (ast.Expr, *ast.BlockStmt, bool) {
+	switch l := loop.(type) {
+	case *ast.RangeStmt:
+		if isInt(m.Info.TypeOf(l.X)) {
+			return l.X, l.Body, true
+		}
+	case *ast.ForStmt:
+		be, ok := ast.Unparen(l.Cond).(*ast.BinaryExpr)
+		if !ok || be.Op != token.LSS {
+			return nil, nil, false
+		}
+		iv := identOf(be.X)
+		if iv == nil {
+			return nil, nil, false
+		}
+		zero := false
+		if as, ok := l.Init.(*ast.AssignStmt); ok {
+			for i, lh := range as.Lhs {
+				if id := identOf(lh); id != nil && m.Info.ObjectOf(id) == m.Info.ObjectOf(iv) && i < len(as.Rhs) {
+					if tv, ok := m.Info.Types[m.StripConv(as.Rhs[i])]; ok && tv.Value != nil && tv.Value.String() == "0" {
+						zero = true
+					}
+				}
+			}
+		}
+		inc, ok := l.Post.(*ast.IncDecStmt)
+		if !zero || !ok || inc.Tok != token.INC || identOf(inc.X) == nil || m.Info.ObjectOf(identOf(inc.X)) != m.Info.ObjectOf(iv) {
+			return nil, nil, false
+		}
+		return be.Y, l.Body, true
+	}
+	return nil, nil, false
+}
+
+// withCallees returns f followed by the unexported functions of the model that f calls statically, up to depth levels
+// (each function once, in call order). Rules that look for "what a role does" use it so that splitting the role into
+// helpers does not hide the work from them.
+func withCallees(m *core.Model, f *core.Func, depth int) []*core.Func {
+	out := []*core.Func{f}
+	seen := map[*core.Func]bool{f: true}
+	var visit func(g *core.Func, d int)
+	visit = func(g *core.Func, d int) {
+		if d >= depth {
+			return
+		}
+		core.InspectNoLits(g.Body, func(n ast.Node) bool {
+			if call, ok := n.(*ast.CallExpr); ok {
+				if k, cal, _ := m.Callee(call); k == core.CallStatic && cal != nil && cal.Body != nil && !seen[cal] && (cal.Obj == nil || !cal.Obj.Exported() || cal.Recv != "" && !isExportedName(cal.Recv)) {
+					seen[cal] = true
+					out = append(out, cal)
+					visit(cal, d+1)
+				}
+			}
+			return true
+		})
+	}
+	visit(f, 0)
+	return out
+}
+
+func isExportedName(s string) bool { return s != "" && s[0] >= 'A' && s[0] <= 'Z' }
+
+// elementLoop recognises a loop over all elements of a slice: `for _, v := range xs`, `for i := range xs` or a
+// counting loop `for i := 0; i < len(xs); i++`. It returns the slice expression (naming locals resolved) and the body.
+func elementLoop(m *core.Model, loop ast.Node) (ast.Expr, *ast.BlockStmt, bool) {
+	switch l := loop.(type) {
+	case *ast.RangeStmt:
+		switch m.Info.TypeOf(l.X).Underlying().(type) {
+		case *types.Slice, *types.Array:
+			return m.Inline(l.X), l.Body, true
+		}
+	}
+	if bound, body, ok := countLoop(m, loop); ok {
+		if call, ok := ast.Unparen(m.StripConv(m.Inline(m.StripConv(bound)))).(*ast.CallExpr); ok && m.IsBuiltin(call, "len") && len(call.Args) == 1 {
+			return m.Inline(call.Args[0]), body, true
+		}
+	}
+	return nil, nil, false
+}
